@@ -669,6 +669,87 @@ class Series:
                 best = i
         return self.index._vals[best]
 
+    def rank(self, method="average", ascending=True, na_option="keep", pct=False, **kw):
+        """ranks as ite sums (no forking): min = 1 + #smaller, max = #smaller-or-equal, average = their mean,
+        first = min + #equal earlier, dense = 1 + #distinct smaller"""
+        vals = self._vals
+        out = []
+        for i, v in enumerate(vals):
+            if is_na(v):
+                out.append(NAN)
+                continue
+            less = eq_before = leq = 0
+            for j, w in enumerate(vals):
+                if is_na(w):
+                    continue
+                lt = (w < v) if ascending else (w > v)
+                e = E.seq(w, v)
+                less = less + E.site(lt, 1, 0)
+                leq = leq + E.site(E.sor(lt, e), 1, 0)
+                if j < i:
+                    eq_before = eq_before + E.site(e, 1, 0)
+            if method == "min":
+                out.append(less + 1)
+            elif method == "max":
+                out.append(leq)
+            elif method == "first":
+                out.append(less + 1 + eq_before)
+            elif method == "average":
+                out.append((less + 1 + leq) / 2)
+            elif method == "dense":
+                d = 0
+                seen = []
+                for j, w in enumerate(vals):
+                    if is_na(w):
+                        continue
+                    lt = (w < v) if ascending else (w > v)
+                    first_of_its_value = E.sand(*[E.snot(E.seq(w, u)) for u in seen]) if seen else True
+                    d = d + E.site(E.sand(lt, first_of_its_value), 1, 0)
+                    seen.append(w)
+                out.append(d + 1)
+            else:
+                raise E.Unsupported(f"rank method {method}")
+        if pct:
+            n = len([v for v in vals if not is_na(v)])
+            out = [o if is_na(o) else o / n for o in out]
+        return self._new(out)
+
+    def argsort(self, **kw):
+        order = sort_positions([self._vals], True, stable=kw.get("kind") in ("stable", "mergesort"))
+        return self._new(order)
+
+    def nlargest(self, n=5, keep="first"):
+        order = sort_positions([self._vals], False, stable=True)
+        return self._take([i for i in order if not is_na(self._vals[i])][:n])
+
+    def nsmallest(self, n=5, keep="first"):
+        order = sort_positions([self._vals], True, stable=True)
+        return self._take([i for i in order if not is_na(self._vals[i])][:n])
+
+    def cumprod(self, **kw):
+        return self._cum(lambda a, b: a * b)
+
+    def prod(self, **kw):
+        acc = 1
+        for v in self._valid():
+            acc = acc * v
+        return acc
+
+    def mode(self):
+        raise E.Unsupported("Series.mode")
+
+    def duplicated(self, keep="first"):
+        seen, out = [], []
+        for v in self._vals:
+            d = any(same_label(v, u) for u in seen)
+            out.append(d)
+            if not d:
+                seen.append(v)
+        return self._new(out, dtype="bool")
+
+    def to_string(self, *a, **k):
+        return repr(self)
+
     def describe(self, **kw):
         names = ["count", "mean", "std", "min", "25%", "50%", "75%", "max"]
         vals = [float(self.count()) if True else 0, self.mean(), self.std(), self.min(), self.quantile(0.25),
